@@ -518,8 +518,22 @@ func runC05Session(t *testing.T, rec *vrec, sc *sessScenario, rng *vrng, valid b
 					}
 					// structural bounds
 					for _, s := range []*UDPSession{client, server} {
+						// an accepted session receives its first datagrams under the default
+						// windows: the window bounds apply once the configured ones are in
+						// force (the monitor's "armed" state, as for C04)
+						armed := true
+						w.mu.Lock()
+						for _, m := range w.mons {
+							if m.s == s {
+								armed = m.armed.Load()
+							}
+						}
+						w.mu.Unlock()
 						s.mu.Lock()
-						msg := coreBounds(s.kcp)
+						msg := ""
+						if armed {
+							msg = coreBounds(s.kcp)
+						}
 						if dec := s.fecDecoder; dec != nil && msg == "" {
 							if n := len(dec.shardSet); n > maxShardSets+2 {
 								msg = fmt.Sprintf("%d FEC shard sets", n)
